@@ -20,6 +20,8 @@ TRUSTED_BASE = [
 PROPS = {}
 _d = os.path.join(os.path.dirname(__file__), "props")
 for _m in sorted(pkgutil.iter_modules([_d])):
+    if _m.name.startswith("_"):
+        continue
     mod = importlib.import_module("runner.props." + _m.name)
     PROPS[_m.name] = mod.SPEC
 
